@@ -93,6 +93,14 @@ CHECKS.append(
               "evaluator core. Decides these structural clauses, not equality with the algebra's multisets.",
          note="Trusted: spargebra's algebra; rustc MIR. Function library and numeric tower are listed, not armed.",
          technique="static: path/arm template extraction over MIR switch tables + dominator rules + panic audit"))
+CHECKS.append(
+    dict(id="C18", level="other", engine="E1+E3",
+         text="Glue around rio_xml decided on all paths: constructor -> rio_format_triples -> finish pairing, no direct writes, "
+              "rio's own formatter and the caller's source handed through unchanged, indentation only to the constructor, and "
+              "convert_triple's conversion table (which shapes are skipped; xsd:string -> Simple decided by the NsTerm equality "
+              "itself, other datatypes Typed, tagged LanguageTaggedString). Decides the glue, not rio_xml's writer/reader.",
+         note="Trusted: rio_xml implements RDF/XML; error propagation of these files is covered by C15 R15.1.",
+         technique="static: success-path template extraction + argument provenance over MIR"))
 NOT_APPLICABLE = [
     dict(property_id="C17", reason="relativise/resolve inverse is an equation between runtime-computed strings "
          "(byte-offset arithmetic); no structural clause that is a genuine necessary condition without freezing the "
@@ -100,7 +108,7 @@ NOT_APPLICABLE = [
 ]
 # properties not yet wired in this commit are listed as not applicable *for now* by gen (see below)
 PENDING = ["C01", "C02", "C05", "C06", "C07", "C11", "C12", "C14",
-           "C18"]
+           ]
 for p in PENDING:
     if p not in [c["id"] for c in CHECKS]:
         NOT_APPLICABLE.append(dict(property_id=p, reason="check under construction in this commit (planned per "
